@@ -67,6 +67,7 @@ func fieldAddrOf(fa *ssa.FieldAddr, tname, field string) (ssa.Value, bool) {
 }
 
 func runC20(c *Ctx) {
+	c20Writes = nil
 	c.rule("H1", "every write into hashingAlgo.Hash is preceded (dominated) by Hash.Reset(), or every path from the write to a return — error returns included — passes Hash.Reset() (explicit or deferred)", 1)
 	c.rule("H1w", "hashingAlgo.Hash is touched only by methods of hashingAlgo and its constructor", 2)
 	c.rule("H2", "the digest returned is hex.EncodeToString(Hash.Sum(nil)) computed after the copy; the copy reads the caller's reader itself into Hash", 3)
@@ -113,6 +114,7 @@ func runC20(c *Ctx) {
 	if writers == 0 {
 		c.fatalf("C20: no write into hashingAlgo.Hash found — anchor lost")
 	}
+	c.c20Conventions()
 
 	// --- H3 constructor table ----------------------------------------------
 	c.c20Table()
@@ -123,6 +125,34 @@ func runC20(c *Ctx) {
 
 // c20Method checks H1 and H2 in one method of hashingAlgo; returns the number
 // of write sites.
+// c20Writes: every write into the hasher found by c20Method, with the convention it follows (reset before / reset after).
+type c20Write struct {
+	key, pos  string
+	pre, post bool
+}
+
+var c20Writes []c20Write
+
+// c20Conventions (H1, agreement): a method may reset the hasher before it writes, or leave it clean on every path after it
+// wrote. The two conventions only work together if nobody relies on the second while somebody follows only the first: a
+// writer that does not reset before it writes trusts every other writer to have cleaned up.
+func (c *Ctx) c20Conventions() {
+	var trusting *c20Write
+	for i := range c20Writes {
+		if !c20Writes[i].pre {
+			trusting = &c20Writes[i]
+		}
+	}
+	for _, w := range c20Writes {
+		if w.post {
+			continue
+		}
+		if trusting != nil && trusting.key != w.key {
+			c.violate("H1", w.key+":leaves-it-clean", w.pos, "this write resets the hasher beforehand but leaves what it wrote in it, while the write at "+trusting.pos+" starts from whatever the hasher holds (it relies on every calculation cleaning up after itself): a calculation through that other method, made after this one on the same hasher, digests this one's input in front of its own")
+		}
+	}
+}
+
 func (c *Ctx) c20Method(f *ssa.Function) int {
 	isHashLoad := func(v ssa.Value) bool {
 		_, ok := fieldLoad(v, "hashingAlgo", "Hash")
@@ -187,12 +217,26 @@ func (c *Ctx) c20Method(f *ssa.Function) int {
 				pre = true
 			}
 		})
+		// (b) every path to a return passes a reset
+		esc := pathAvoiding(w, func(in ssa.Instruction) bool { return isReset(in) || isDeferReset(in) }, isReturn)
+		// a reset deferred before the write runs on every exit too
+		deferred := false
+		allInstrs(f, func(in ssa.Instruction) {
+			if isDeferReset(in) && dominates(in, w) {
+				deferred = true
+			}
+		})
+		resetFirst := false
+		allInstrs(f, func(in ssa.Instruction) {
+			if isReset(in) && dominates(in, w) {
+				resetFirst = true
+			}
+		})
+		c20Writes = append(c20Writes, c20Write{key: key, pos: c.ipos(w), pre: resetFirst, post: esc == nil || deferred})
 		if pre {
 			c.ok("H1", key, c.ipos(w), "reset (or deferred reset) dominates the write")
 			continue
 		}
-		// (b) every path to a return passes a reset
-		esc := pathAvoiding(w, func(in ssa.Instruction) bool { return isReset(in) || isDeferReset(in) }, isReturn)
 		if esc == nil {
 			c.ok("H1", key, c.ipos(w), "every path from the write to a return passes Hash.Reset()")
 		} else {
